@@ -326,10 +326,10 @@ func replyErr(ri, n int, err error, mode string) error {
 }
 
 func checkHTTP(t testing.TB, c httpCase) error {
-	err := checkHTTPOnce(t, c)
+	err := guard(func() error { return checkHTTPOnce(t, c) })
 	if _, ok := err.(*timeoutErr); ok {
 		// evidence is "did not arrive in time": measure again before reporting
-		if err2 := checkHTTPOnce(t, c); err2 == nil {
+		if err2 := guard(func() error { return checkHTTPOnce(t, c) }); err2 == nil {
 			vlib.Open(prop).Flaky("http: " + err.Error())
 			return nil
 		} else {
@@ -714,7 +714,7 @@ func TestHTTP(t *testing.T) {
 	if vlib.ReplayCase("TestHTTP", &rc) {
 		if err := checkHTTP(t, rc); err != nil {
 			if isInfra(err) {
-				t.Fatalf("%v", err)
+				infraExit(err)
 			}
 			r.Violation(t, "TestHTTP", rc, err.Error())
 		}
@@ -744,7 +744,7 @@ func TestHTTP(t *testing.T) {
 		}
 		if err := checkHTTP(t, c); err != nil {
 			if isInfra(err) {
-				rt.Fatalf("%v", err)
+				infraExit(err)
 			}
 			r.Fail(rt, "TestHTTP", c, "%v", err)
 		}
@@ -780,7 +780,7 @@ func TestHTTPCuts(t *testing.T) {
 	if vlib.ReplayCase("TestHTTPCuts", &rc) {
 		if err := checkHTTP(t, rc); err != nil {
 			if isInfra(err) {
-				t.Fatalf("%v", err)
+				infraExit(err)
 			}
 			r.Violation(t, "TestHTTPCuts", rc, err.Error())
 		}
@@ -816,7 +816,7 @@ func TestHTTPCuts(t *testing.T) {
 			n++
 			if err := checkHTTP(t, c); err != nil {
 				if isInfra(err) {
-					t.Fatalf("%v", err)
+					infraExit(err)
 				}
 				bad++
 				if bad == 1 {
